@@ -35,6 +35,7 @@ type fxCfg struct {
 	Pools   []poolCfg
 	Farmers []string
 	MinPs   *big.Int // MinInitialPoolCoinSupply
+	Distr   string   // SwapFeeDistrDenom of the app when the pools (and their swap-fee gauges) are created; "" = default
 	Give    *big.Int // pool coins handed to every farmer (per pool)
 	Rewards []string // reward denoms funded to the gauge creator "gc" and to farmers
 	RewAmt  *big.Int
@@ -125,6 +126,9 @@ func newFixture(cfg fxCfg) (*sim.Env, *fixture) {
 	gp.PoolCreationFee = sdk.NewCoins()
 	gp.MinInitialDepositAmount = sdkmath.NewInt(1)
 	gp.MinInitialPoolCoinSupply = sdkmath.NewIntFromBigInt(cfg.MinPs)
+	if cfg.Distr != "" {
+		gp.SwapFeeDistrDenom = cfg.Distr
+	}
 	e.App.LiquidityKeeper.SetGenericParams(e.Ctx, gp)
 
 	lp := sim.Addr("lp")
@@ -171,6 +175,21 @@ func newFixture(cfg fxCfg) (*sim.Env, *fixture) {
 func (fx *fixture) setPrice(e *sim.Env, ai int, twa uint64, active bool) {
 	e.App.MarketKeeper.SetTwa(e.Ctx, markettypes.TimeWeightedAverage{AssetID: fx.assetID[ai], ScriptID: 12, Twa: twa,
 		CurrentIndex: 0, IsPriceActive: active, PriceValue: []uint64{twa}})
+}
+
+// setGov writes the two liquidity generic params the swap-fee gauges read (governance-style configuration).
+func (fx *fixture) setGov(e *sim.Env, distr string, burnPermille int64) {
+	gp, err := e.App.LiquidityKeeper.GetGenericParams(e.Ctx, fx.app)
+	if err != nil {
+		panic(err)
+	}
+	if distr != "" {
+		gp.SwapFeeDistrDenom = distr
+	}
+	if burnPermille >= 0 {
+		gp.SwapFeeBurnRate = sdkmath.LegacyNewDecWithPrec(burnPermille, 3)
+	}
+	e.App.LiquidityKeeper.SetGenericParams(e.Ctx, gp)
 }
 
 // ---- block stepping split in two halves so that both are logged --------------------------------------------
